@@ -507,6 +507,80 @@ fn uniq_cases(em: &mut Emitter) {
     }
 }
 
+/// C14 audit: Option<i32> edge vectors holding a None at every position (the guard comes first: a wrong label count is
+/// `Err` whatever the edges hold; otherwise `IsNone::unwrap` panics at call time), and f64 edge vectors holding a NaN
+/// (unwrap is the identity: both neighbouring explicit tests are false; with add_bounds a value may then get no label)
+fn cut_cases_null_edges(em: &mut Emitter) {
+    let vals: Vec<Option<i32>> = vec![None, Some(-5), Some(0), Some(3), Some(4), Some(9), Some(i32::MIN), Some(i32::MAX), None];
+    let vals_coq = coq_list(&vals, |x| coq_opt(x, |v| cz(*v)));
+    let bases: [&[i32]; 4] = [&[], &[3], &[0, 4], &[-5, 0, 9]];
+    for base in bases {
+        // every way of inserting / substituting one None, plus the all-Some vector
+        let mut variants: Vec<Vec<Option<i32>>> = vec![base.iter().map(|x| Some(*x)).collect()];
+        for p in 0..=base.len() {
+            let mut v: Vec<Option<i32>> = base.iter().map(|x| Some(*x)).collect();
+            v.insert(p, None);
+            variants.push(v);
+        }
+        for p in 0..base.len() {
+            let mut v: Vec<Option<i32>> = base.iter().map(|x| Some(*x)).collect();
+            v[p] = None;
+            variants.push(v);
+        }
+        for edges in variants {
+            let nnull = edges.iter().filter(|x| x.is_none()).count();
+            let edges_coq = coq_list(&edges, |x| coq_opt(x, |v| cz(*v)));
+            for nlab in 0..=5usize {
+                for right in [true, false] {
+                    for ab in [true, false] {
+                        for nullable in [true, false] {
+                            let labels_i: Vec<i32> = (0..nlab as i32).map(|j| 100 + j).collect();
+                            let labels_o: Vec<Option<i32>> = labels_i.iter().map(|x| Some(*x)).collect();
+                            let tags = format!(
+                                "fn=vcut_call ty=opt_i32 lty={} nedges={} nulledges={} nlab={} right={} bounds={} count={}",
+                                if nullable { "opt_i32" } else { "i32" }, edges.len(), nnull, nlab, right, ab,
+                                count_tag(ab, edges.len(), nlab));
+                            let desc = format!(
+                                "fn=vcut ty=Option<i32> labels={}x{} right={} add_bounds={} edges={:?} (null edges) values={:?}",
+                                if nullable { "Option<i32>" } else { "i32" }, nlab, right, ab, edges, vals);
+                            let term = format!("(run_cut_call_z {} {} {} {} {} {})",
+                                coq_bool(right), coq_bool(ab), coq_bool(nullable), edges_coq, coq_nat(nlab), vals_coq);
+                            if nullable {
+                                em.case("exact", &tags, &desc, || term.clone(),
+                                    || cut_impl!(vals.clone(), edges.clone(), labels_o.clone(), right, ab, opt_i32_cell));
+                            } else {
+                                em.case("exact", &tags, &desc, || term.clone(),
+                                    || cut_impl!(vals.clone(), edges.clone(), labels_i.clone(), right, ab, |l: i32| Cell::Int(l as i128)));
+                            }
+                        }
+                    }
+                }
+            }
+        }
+    }
+    // f64: a NaN among the edges
+    let fvals: Vec<f64> = vec![f64::NAN, -1.0, 0.0, 0.5, 1.0, 2.0, f64::INFINITY, f64::NEG_INFINITY];
+    let fvals_coq = coq_list(&fvals, |x| coq_optf(*x));
+    let fedges: [&[f64]; 5] = [&[f64::NAN], &[f64::NAN, 1.0], &[0.0, f64::NAN], &[0.0, f64::NAN, 1.0], &[f64::NAN, f64::NAN]];
+    for edges in fedges {
+        let edges_coq = coq_list(edges, |x| coq_f64(*x));
+        for nlab in 0..=4usize {
+            for right in [true, false] {
+                for ab in [true, false] {
+                    let labels: Vec<f64> = (0..nlab).map(|j| 100.0 + j as f64).collect();
+                    let tags = format!("fn=vcut_nan_edge ty=f64 lty=f64 nedges={} nlab={} right={} bounds={} count={}",
+                        edges.len(), nlab, right, ab, count_tag(ab, edges.len(), nlab));
+                    let desc = format!("fn=vcut ty=f64 labels=f64x{} right={} add_bounds={} edges={:?} (NaN edge) values={:?}",
+                        nlab, right, ab, edges, fvals);
+                    em.case("exact", &tags, &desc,
+                        || format!("(run_cut_f {} {} true {} {} {})", coq_bool(right), coq_bool(ab), edges_coq, coq_nat(nlab), fvals_coq),
+                        || cut_impl!(fvals.clone(), edges.to_vec(), labels.clone(), right, ab, |l: f64| Cell::F(l)));
+                }
+            }
+        }
+    }
+}
+
 fn main() {
     let mut em = Emitter::new();
     let thorough = em.thorough();
@@ -520,6 +594,7 @@ fn main() {
         cut_cases_f64(&mut em, "tiny", &[-5e-324, 0.0, 5e-324, 1.0, 1.0 + f64::EPSILON, 2.0], 6);
     }
     cut_cases_random(&mut em, if thorough { 5000 } else { 1500 });
+    cut_cases_null_edges(&mut em);
     uniq_cases(&mut em);
     em.finish();
 }
